@@ -53,8 +53,8 @@ value the code has checked, and is a structural recursion in the model:
     of four `decodeSymbol` (no inner loop: at most one 16-bit refill each), `len%4` tail bytes;
   * `decodeChunkV1` (version 1): each renormalisation loop reads two bytes per iteration and stops
     at the end of `this.buffer` at the latest (`C03_ans_v1_renorm_fuel`).
-So the time of one `Read` is `O((count/chunkSize + 1) · dim · 2^15 + count)` (+ `2^27` for a forged
-version-1 size), independent of the payload contents. -/
+So the time of one `Read` is `O((count/chunkSize + 1) · dim · 2^15 + count)`, independent of the
+payload contents. -/
 theorem C03_ans_terminates (p : Params) (hcs : 0 < p.chunkSize) (s : St) (bs : Bits) (count : Nat) :
     (read p s bs count).cls ≠ .fuel :=
   read_terminates p hcs s bs count
@@ -222,8 +222,26 @@ theorem C03_ans_overrun_iff (p : Params) (lr len rem : Nat) (acc : List Nat) (h 
 
 /-! ## bitstream version 1 (`decodeChunkV1`; reachable: the version is read from the stream header)
 
-No-fault and the buffer bound do NOT hold for version 1: `C03_ans_v1_fault_example`,
-`C03_ans_v1_alloc_example` in `Properties/C03_ans_ex.lean` (recovered by the task: observations). -/
+No-fault does NOT hold for version 1 (`C03_ans_v1_fault_example` in `Properties/C03_ans_ex.lean`: an
+index panic recovered by the task, an observation).  The buffer used to be sized from the stream's
+VarInt alone (finding: 144 MiB per task from a 52-byte stream); since the repair (`sz > max(2·len, 256)`
+is rejected before anything is read or allocated) it is bounded for every version. -/
+
+/-- **C03_ans_alloc_bound_any.**  For EVERY bitstream version (1 included), input and decoder object:
+`len(this.buffer)` after a `Read` of `count` bytes, however it ends, is at most
+`max(before, m + m/8)` with `m = max(2·min(chunkSize, count), 256)` (version 1 pads its buffer by one
+eighth; the other versions stay within `m`: `C03_ans_alloc_bound`) -/
+theorem C03_ans_alloc_bound_any (p : Params) (s : St) (bs : Bits) (count : Nat) :
+    (read p s bs count).bufSz ≤
+      max s.buf.size (max (2 * min p.chunkSize count) 256 + max (2 * min p.chunkSize count) 256 / 8) :=
+  read_sz p s bs count
+
+/-- **C03_ans_v1_alloc_bound.**  The instance for bitstream version 1 (`decodeChunkV1`), the path the
+finding was about -/
+theorem C03_ans_v1_alloc_bound (p : Params) (_hv : p.bsVersion = 1) (s : St) (bs : Bits) (count : Nat) :
+    (read p s bs count).bufSz ≤
+      max s.buf.size (max (2 * min p.chunkSize count) 256 + max (2 * min p.chunkSize count) 256 / 8) :=
+  read_sz p s bs count
 
 /-- the renormalisation loops of `decodeChunkV1` (`for st < _ANS_TOP`, two bytes per iteration) are the
 only data-driven loops of the decoder; they stop at the end of `this.buffer` at the latest:
